@@ -241,10 +241,11 @@ def conclude(prop, tier, seed, level, rule, assumptions, rec, wall, required_mon
             env.say("VIOLATION property=%s replay=%s" % (prop, path))
             env.say("  key=%s count=%d :: %s" % (key, v["count"], str(v["what"])[:600]))
         code = 1
-    elif inconclusive:
+    if inconclusive:
         for r in inconclusive:
-            env.say("INCONCLUSIVE property=%s reason=%s" % (prop, r))
-        code = 2
+            env.say("INCONCLUSIVE property=%s reason=%s" % (prop, str(r)[:1200]))
+        if code == 0:
+            code = 2
     env.say("%s %s tier=%s seed=%s evaluations=%d distinct_nontrivial=%d known=%d new=%d wall=%.1fs" % (
         prop, {0: "HELD", 1: "VIOLATED", 2: "INCONCLUSIVE"}[code], tier, seed, rec.evaluations,
         len(rec.cases), len(hit), len(new), wall))
